@@ -1,8 +1,13 @@
 import Ucan.Gen.ChainProofs
 import Ucan.Props.Tie.ChainDefs
 import Ucan.Props.Tie.CommandCovers
-import Ucan.Lemmas.Chain
-/-! Regenerated-code tie for `verifyProofs` (C01, C02, C05). -/
+import Ucan.Props.C01
+/-! Regenerated-code tie for `verifyProofs` (C02, C05; C01 has `ChainPrincipals`): the regenerated function returns nil EXACTLY
+when the model's `verifyProofs` does, i.e. exactly when the chain satisfies the principal and command clauses of the specification
+(`verifyProofs_ok_iff`). Which error a refused chain gets, and which of several failing links is named, is not part of any property
+and is not fixed here: in the loop lemma every delegation is analysed by the three tests at once (subject, audience, command) and
+the proof goes through for any order in which the loop body makes them (`ChainProofsExact` has the equality with the error class
+for the code as it is today; it belongs to no property). -/
 set_option linter.unusedSimpArgs false
 set_option linter.unusedSectionVars false
 namespace Ucan.Tie
@@ -10,15 +15,14 @@ open Ucan Ucan.GoM
 
 variable {D C S A : Type} [DecidableEq D]
 
-/-- the alignment loop of `verifyProofs` from position `k`: it fails exactly where the model's `proofLoop`
-fails, with the same error class, and otherwise runs to the end of the proof list (no panic: every
-`delegations[i]` is in range because one delegation was loaded per proof CID; no fuel exhaustion) -/
-theorem verifyProofs_loop (undef : D) (pol) (g : Gen.InvTok D C A) (ds : List (Gen.DlgTok D S)) (sub : D)
+/-- the alignment loop from position `k`: it never leaves through `return`, and it runs to the end exactly when the model's
+`proofLoop` accepts the rest of the chain -/
+theorem verifyProofs_loop_iff (undef : D) (pol) (g : Gen.InvTok D C A) (ds : List (Gen.DlgTok D S)) (sub : D)
     (hs : sub ≠ undef) (hlen : ds.length = g.proof.length) (fuel k : Nat) (hf : ds.length - k < fuel)
     (hk : k ≤ ds.length) (cmd : Bytes) (iss : D) :
-    match Chain.proofLoop sub iss cmd ((ds.drop k).map (toDlg undef pol)) with
-    | .error e => Gen.Inv_verifyProofs.loop1 fuel g ds sub (k : Int) cmd iss = .error (chainErr e)
-    | .ok () => ∃ c i, Gen.Inv_verifyProofs.loop1 fuel g ds sub (k : Int) cmd iss = .ok (.next ((ds.length : Int), c, i)) := by
+    (∀ out, Gen.Inv_verifyProofs.loop1 fuel g ds sub (k : Int) cmd iss = .ok out → ∃ r, out = .next r) ∧
+    ((∃ r, Gen.Inv_verifyProofs.loop1 fuel g ds sub (k : Int) cmd iss = .ok (.next r)) ↔
+      Chain.proofLoop sub iss cmd ((ds.drop k).map (toDlg undef pol)) = .ok ()) := by
   induction fuel generalizing k cmd iss with
   | zero => omega
   | succ fuel ih =>
@@ -29,70 +33,136 @@ theorem verifyProofs_loop (undef : D) (pol) (g : Gen.InvTok D C A) (ds : List (G
       have h1 : ((k : Int) < (g.proof.length : Int)) := by omega
       have h2 : ((k : Int) + 1) = ((k + 1 : Nat) : Int) := by omega
       rw [hd]
-      simp only [List.map_cons, Chain.proofLoop]
-      have hsub := toDlg_sub_ne undef sub pol ds[k] hs
+      simp only [List.map_cons]
+      have hsub := toDlg_sub_ne (S := S) undef sub pol ds[k] hs
+      obtain ⟨ihA, ihB⟩ := ih (k + 1) (by omega) (by omega) ds[k].command ds[k].issuer
+      -- the model's step, in terms of the three tests on the Go structure
+      have hmodel : Chain.proofLoop sub iss cmd (toDlg undef pol ds[k] :: (ds.drop (k + 1)).map (toDlg undef pol)) =
+          if ds[k].subject = sub ∧ ds[k].audience = iss ∧ Command.covers ds[k].command cmd = true then
+            Chain.proofLoop sub ds[k].issuer ds[k].command ((ds.drop (k + 1)).map (toDlg undef pol))
+          else Chain.proofLoop sub iss cmd (toDlg undef pol ds[k] :: (ds.drop (k + 1)).map (toDlg undef pol)) := by
+        split
+        · rename_i h
+          obtain ⟨a1, a2, a3⟩ := h
+          have c1' : ¬ ((toDlg undef pol ds[k]).sub ≠ some sub) := by rw [hsub]; simpa using a1
+          have c2' : (toDlg undef pol ds[k]).aud = iss := a2
+          have c3' : Command.covers (toDlg undef pol ds[k]).cmd cmd = true := a3
+          simp only [Chain.proofLoop]
+          rw [if_neg c1', if_neg (by simpa using c2'), if_neg (by simpa using c3')]
+          rfl
+        · rfl
+      have hfail : ¬ (ds[k].subject = sub ∧ ds[k].audience = iss ∧ Command.covers ds[k].command cmd = true) →
+          Chain.proofLoop sub iss cmd (toDlg undef pol ds[k] :: (ds.drop (k + 1)).map (toDlg undef pol)) ≠ .ok () := by
+        intro hn
+        simp only [Chain.proofLoop]
+        by_cases a1 : ds[k].subject = sub
+        · have c1' : ¬ ((toDlg undef pol ds[k]).sub ≠ some sub) := by rw [hsub]; simpa using a1
+          rw [if_neg c1']
+          by_cases a2 : ds[k].audience = iss
+          · have c2' : (toDlg undef pol ds[k]).aud = iss := a2
+            rw [if_neg (by simpa using c2')]
+            have a3 : ¬ (Command.covers ds[k].command cmd = true) := fun h => hn ⟨a1, a2, h⟩
+            have c3' : ¬ (Command.covers (toDlg undef pol ds[k]).cmd cmd = true) := a3
+            rw [if_pos c3']
+            simp
+          · have c2' : ¬ ((toDlg undef pol ds[k]).aud = iss) := a2
+            rw [if_pos c2']
+            simp
+        · have c1' : (toDlg undef pol ds[k]).sub ≠ some sub := by rw [hsub]; exact a1
+          rw [if_pos c1']
+          simp
       by_cases c1 : ds[k].subject = sub
-      · have c1' : ¬ ((toDlg undef pol ds[k]).sub ≠ some sub) := by rw [hsub]; simpa using c1
-        by_cases c2 : ds[k].audience = iss
-        · have c2' : (toDlg undef pol ds[k]).aud = iss := c2
-          by_cases c3 : Command.covers ds[k].command cmd = true
-          · have c3' : Command.covers (toDlg undef pol ds[k]).cmd cmd = true := c3
-            have := ih (k + 1) (by omega) (by omega) ds[k].command ds[k].issuer
-            rw [if_neg c1', if_neg (by simpa using c2'), if_neg (by simpa using c3')]
+      · by_cases c2 : ds[k].audience = iss
+        · cases hc : Command.covers ds[k].command cmd with
+          | true =>
+            rw [hmodel, if_pos (show ds[k].subject = sub ∧ ds[k].audience = iss ∧ Command.covers ds[k].command cmd = true from ⟨c1, c2, hc⟩)]
             simp only [len, idx, h1, decide_true, Bool.not_true, Bool.false_eq_true, ↓reduceIte,
               Int.natCast_nonneg, Int.toNat_natCast, hltp, hlt, and_self, ↓reduceDIte, bind, Except.bind, pure, Except.pure,
-              c1, c2, bne_self_eq_false, Command_Covers_eq, c3, h2]
-            exact this
-          · have c3' : ¬ (Command.covers (toDlg undef pol ds[k]).cmd cmd = true) := c3
-            have c3'' : Command.covers ds[k].command cmd = false := by simpa using c3
-            rw [if_neg c1', if_neg (by simpa using c2'), if_pos c3']
-            simp only [len, idx, h1, decide_true, Bool.not_true, Bool.false_eq_true, ↓reduceIte,
-              Int.natCast_nonneg, Int.toNat_natCast, hltp, hlt, and_self, ↓reduceDIte, bind, Except.bind, pure, Except.pure,
-              c1, c2, bne_self_eq_false, Command_Covers_eq, c3'', Bool.not_false, chainErr, throw, throwThe, MonadExceptOf.throw]
-        · have c2' : ¬ ((toDlg undef pol ds[k]).aud = iss) := c2
-          have c2'' : (ds[k].audience != iss) = true := by simpa using c2
-          rw [if_neg c1', if_pos c2']
-          simp only [len, idx, h1, decide_true, Bool.not_true, Bool.false_eq_true, ↓reduceIte,
-            Int.natCast_nonneg, Int.toNat_natCast, hltp, hlt, and_self, ↓reduceDIte, bind, Except.bind, pure, Except.pure,
-            c1, c2'', bne_self_eq_false, chainErr, throw, throwThe, MonadExceptOf.throw]
-      · have c1' : (toDlg undef pol ds[k]).sub ≠ some sub := by rw [hsub]; exact c1
-        have c1'' : (ds[k].subject != sub) = true := by simpa using c1
-        rw [if_pos c1']
-        simp only [len, idx, h1, decide_true, Bool.not_true, Bool.false_eq_true, ↓reduceIte,
-          Int.natCast_nonneg, Int.toNat_natCast, hltp, hlt, and_self, ↓reduceDIte, bind, Except.bind, pure, Except.pure,
-          c1'', chainErr, throw, throwThe, MonadExceptOf.throw]
+              c1, c2, bne_self_eq_false, Command_Covers_eq, hc, h2]
+            exact ⟨ihA, ihB⟩
+          | false =>
+            have hm := hfail (by simp [hc])
+            refine ⟨?_, ?_⟩
+            · intro out h
+              simp [len, idx, h1, hltp, hlt, bind, Except.bind, pure, Except.pure, c1, c2, Command_Covers_eq, hc,
+                throw, throwThe, MonadExceptOf.throw] at h
+            · constructor
+              · rintro ⟨r, h⟩
+                simp [len, idx, h1, hltp, hlt, bind, Except.bind, pure, Except.pure, c1, c2, Command_Covers_eq, hc,
+                  throw, throwThe, MonadExceptOf.throw] at h
+              · intro h; exact absurd h hm
+        · have hm := hfail (by simp [c2])
+          have c2b : (ds[k].audience != iss) = true := by simpa using c2
+          refine ⟨?_, ?_⟩
+          · intro out h
+            cases hc : Command.covers ds[k].command cmd <;>
+              simp [len, idx, h1, hltp, hlt, bind, Except.bind, pure, Except.pure, c1, c2b, Command_Covers_eq, hc,
+                throw, throwThe, MonadExceptOf.throw] at h
+          · constructor
+            · rintro ⟨r, h⟩
+              cases hc : Command.covers ds[k].command cmd <;>
+                simp [len, idx, h1, hltp, hlt, bind, Except.bind, pure, Except.pure, c1, c2b, Command_Covers_eq, hc,
+                  throw, throwThe, MonadExceptOf.throw] at h
+            · intro h; exact absurd h hm
+      · have hm := hfail (by simp [c1])
+        have c1b : (ds[k].subject != sub) = true := by simpa using c1
+        refine ⟨?_, ?_⟩
+        · intro out h
+          by_cases c2 : ds[k].audience = iss <;> cases hc : Command.covers ds[k].command cmd <;>
+            simp [len, idx, h1, hltp, hlt, bind, Except.bind, pure, Except.pure, c1b, c2, Command_Covers_eq, hc,
+              throw, throwThe, MonadExceptOf.throw] at h
+        · constructor
+          · rintro ⟨r, h⟩
+            by_cases c2 : ds[k].audience = iss <;> cases hc : Command.covers ds[k].command cmd <;>
+              simp [len, idx, h1, hltp, hlt, bind, Except.bind, pure, Except.pure, c1b, c2, Command_Covers_eq, hc,
+                throw, throwThe, MonadExceptOf.throw] at h
+          · intro h; exact absurd h hm
     · have : k = ds.length := by omega
       subst this
       have h1 : ¬ (((ds.length : Nat) : Int) < (g.proof.length : Int)) := by omega
-      simp [len, h1, Chain.proofLoop, bind, Except.bind, pure, Except.pure]
+      refine ⟨?_, ?_⟩
+      · intro out h
+        simp only [len, h1, decide_false, Bool.not_false, ↓reduceIte, bind, Except.bind, pure, Except.pure] at h
+        exact ⟨_, (Except.ok.inj h).symm⟩
+      · simp [len, h1, Chain.proofLoop, bind, Except.bind, pure, Except.pure]
 
-/-- `verifyProofs`, regenerated, is the model's `verifyProofs` (the function `verifyProofs_ok_iff`, C01, C02 and
-C05 are about) whenever one delegation was loaded per proof CID (what `loadProofs` guarantees,
-`loadProofs_length`) and the invocation's subject is a defined DID (what `validate()` guarantees). -/
-theorem Inv_verifyProofs_eq {X : Type} (x : X) (args : Node) (undef : D) (pol) (g : Gen.InvTok D C A)
+/-- `verifyProofs`, regenerated, returns nil EXACTLY when the model's `verifyProofs` does (one delegation loaded per proof CID, the
+invocation's subject a defined DID) -/
+theorem Inv_verifyProofs_ok_iff {X : Type} (x : X) (args : Node) (undef : D) (pol) (g : Gen.InvTok D C A)
     (ds : List (Gen.DlgTok D S)) (hs : g.subject ≠ undef) (hlen : ds.length = g.proof.length) :
-    Gen.Inv_verifyProofs g ds =
-      (Chain.verifyProofs (toInv x args g) (ds.map (toDlg undef pol))).mapError chainErr := by
+    Gen.Inv_verifyProofs g ds = .ok () ↔ Chain.verifyProofs (toInv x args g) (ds.map (toDlg undef pol)) = .ok () := by
   unfold Gen.Inv_verifyProofs Chain.verifyProofs
   by_cases h0 : ds.length < 1
   · have : ((ds.length : Int) < 1) := by omega
-    simp [len, this, h0, Except.mapError, chainErr, bind, Except.bind, throw, throwThe, MonadExceptOf.throw]
+    simp [len, this, h0, bind, Except.bind, throw, throwThe, MonadExceptOf.throw]
   · have h0' : ¬ ((ds.length : Int) < 1) := by omega
-    have hloop := verifyProofs_loop undef pol g ds g.subject hs hlen (g.proof.length + 1) 0 (by omega) (by omega)
+    obtain ⟨hA, hB⟩ := verifyProofs_loop_iff undef pol g ds g.subject hs hlen (g.proof.length + 1) 0 (by omega) (by omega)
       g.command g.issuer
-    simp only [List.drop_zero, Int.natCast_zero] at hloop
+    simp only [List.drop_zero, Int.natCast_zero] at hA hB
     simp only [len, h0', decide_false, Bool.false_eq_true, ↓reduceIte, List.length_map, h0, toInv]
-    cases hp : Chain.proofLoop g.subject g.issuer g.command (ds.map (toDlg undef pol)) with
+    have hne : ds ≠ [] := by intro e; simp [e] at h0
+    have hidx : idx ds ((ds.length : Int) - 1) = .ok (ds.getLast hne) := by
+      have hpos : 0 < ds.length := by omega
+      have e1 : ((ds.length : Int) - 1).toNat = ds.length - 1 := by omega
+      simp only [idx, e1]
+      rw [dif_pos ⟨by omega, by omega⟩]
+      simp [pure, Except.pure, List.getLast_eq_getElem]
+    have hlast : (ds.map (toDlg undef pol)).getLast? = some (toDlg undef pol (ds.getLast hne)) := by
+      rw [List.getLast?_map, List.getLast?_eq_some_getLast hne]; rfl
+    cases hl : Gen.Inv_verifyProofs.loop1 (g.proof.length + 1) g ds g.subject 0 g.command g.issuer with
     | error e =>
-      rw [hp] at hloop
-      simp only [bind, Except.bind, hloop, Except.mapError]
-    | ok u =>
-      rw [hp] at hloop
-      obtain ⟨c, i, hl⟩ := hloop
-      have hne : ds ≠ [] := by intro e; simp [e] at h0
+      have hm : Chain.proofLoop g.subject g.issuer g.command (ds.map (toDlg undef pol)) ≠ .ok () := by
+        intro h
+        obtain ⟨r, hr⟩ := hB.2 h
+        rw [hl] at hr; cases hr
+      cases hp : Chain.proofLoop g.subject g.issuer g.command (ds.map (toDlg undef pol)) with
+      | error e' => simp [bind, Except.bind]
+      | ok u => exact absurd hp hm
+    | ok out =>
+      obtain ⟨r, hr⟩ := hA out hl
+      subst hr
+      have hp : Chain.proofLoop g.subject g.issuer g.command (ds.map (toDlg undef pol)) = .ok () := hB.1 ⟨r, hl⟩
       have hall := ((Chain.proofLoop_ok_iff _ _ _ _).mp hp).1
-      have hlast : (ds.map (toDlg undef pol)).getLast? = some (toDlg undef pol (ds.getLast hne)) := by
-        rw [List.getLast?_map, List.getLast?_eq_some_getLast hne]; rfl
       have hsubj : (toDlg undef pol (ds.getLast hne)).sub = some g.subject :=
         hall _ (List.mem_map.mpr ⟨_, List.getLast_mem hne, rfl⟩)
       have hsubj' : (ds.getLast hne).subject = g.subject := by
@@ -100,13 +170,7 @@ theorem Inv_verifyProofs_eq {X : Type} (x : X) (args : Node) (undef : D) (pol) (
         by_cases hu : (ds.getLast hne).subject = undef
         · simp [hu] at hsubj
         · simpa [hu] using hsubj
-      have hidx : idx ds ((ds.length : Int) - 1) = .ok (ds.getLast hne) := by
-        have hpos : 0 < ds.length := by omega
-        have e1 : ((ds.length : Int) - 1).toNat = ds.length - 1 := by omega
-        simp only [idx, e1]
-        rw [dif_pos ⟨by omega, by omega⟩]
-        simp [pure, Except.pure, List.getLast_eq_getElem]
-      simp only [bind, Except.bind, hl, hidx, hlast, hsubj, pure, Except.pure, Except.mapError]
+      simp only [bind, Except.bind, hidx, hlast, hsubj, hp, pure, Except.pure]
       by_cases hr : (ds.getLast hne).issuer = (ds.getLast hne).subject
       · have : (toDlg undef pol (ds.getLast hne)).iss = g.subject := by
           show (ds.getLast hne).issuer = g.subject
@@ -115,6 +179,14 @@ theorem Inv_verifyProofs_eq {X : Type} (x : X) (args : Node) (undef : D) (pol) (
       · have : ¬ ((toDlg undef pol (ds.getLast hne)).iss = g.subject) := by
           show ¬ ((ds.getLast hne).issuer = g.subject)
           rw [← hsubj']; exact hr
-        simp [hr, this, chainErr, throw, throwThe, MonadExceptOf.throw]
+        simp [hr, this, throw, throwThe, MonadExceptOf.throw]
+
+/-- … i.e. exactly for the chains that satisfy the principal and command clauses of the specification -/
+theorem Inv_verifyProofs_ok_iff_spec {X : Type} (x : X) (args : Node) (undef : D) (pol) (g : Gen.InvTok D C A)
+    (ds : List (Gen.DlgTok D S)) (hs : g.subject ≠ undef) (hlen : ds.length = g.proof.length) :
+    Gen.Inv_verifyProofs g ds = .ok () ↔
+      Chain.PrincipalSpec (toInv x args g) (ds.map (toDlg undef pol)) ∧
+      Chain.CommandSpec (toInv x args g) (ds.map (toDlg undef pol)) := by
+  rw [Inv_verifyProofs_ok_iff x args undef pol g ds hs hlen, Chain.verifyProofs_ok_iff]
 
 end Ucan.Tie
